@@ -42,6 +42,18 @@ configs_of() { # property -> harness configurations it runs in
 }
 needs_cli() { case "$1" in C08|C10|C11|C14|C15|C18|C19|C21|C22|C23|C24|C25|C26|C27|C28|C29|C30) return 0;; *) return 1;; esac; }
 
+# thorough tier: coverage-guided campaign (E4, cargo-fuzz + ASan) after the generated search.
+# A fuzz infrastructure problem (nightly build failure) is reported but does not turn a
+# passing check into a failure: exit codes combine as max(violation) > inconclusive > ok.
+fuzz_tier() { # <rc so far>
+  local rc="$1"
+  if [ "$tier" = thorough ] && [ "$rc" -ne 1 ] && [ -z "${VERIF_NO_FUZZ:-}" ]; then
+    "$ROOT/fuzz.sh" "$id" "${VERIF_FUZZ_RUNS:-300000}"; local frc=$?
+    if [ $frc -eq 1 ]; then rc=1; elif [ $frc -ne 0 ] && [ "$rc" -eq 0 ]; then rc=2; fi
+  fi
+  exit "$rc"
+}
+
 if [ "${1:-}" = "replay" ]; then
   [ -n "${2:-}" ] || { echo "usage: run.sh replay <file>" >&2; exit 2; }
   file="$(readlink -f "$2")"
@@ -85,7 +97,8 @@ export VH_CLI="$ROOT/target/cli/release/succinctly"
 set -- $cfgs
 if [ $# -eq 1 ]; then
   VH_CONFIG=default "$ROOT/target/default/release/vh" run "$id" "$tier"
-  exit $?
+  rc=$?
+  fuzz_tier "$rc"
 fi
 
 # configuration matrix: same seeded case stream in every configuration
@@ -103,4 +116,4 @@ for c in $cfgs; do
 done
 "$ROOT/target/default/release/vh" merge "$id" "$tier" "${parts[@]}"; mrc=$?
 if [ $mrc -eq 1 ]; then worst=1; elif [ $mrc -ne 0 ] && [ $worst -eq 0 ]; then worst=2; fi
-exit $worst
+fuzz_tier "$worst"
